@@ -260,7 +260,7 @@ def _c29_extra(tier, seed, native_run):
         return out
     out['bounded_filewrap_roundtrip'] = {
         'note': 'BOUNDED stand-in (not counted in obligations): InputFileGenerator.transfer_var/transfer_array -> FileParser.transfer_var/transfer_array round trip (re + pyparsing are outside the subset)',
-        'bound': 'templates <=3 lines x <=4 fields, delimiters {space, comma}, every field position, 26 values incl. +-inf, nan, denormal, max float, point-free exponent forms (1e-05, -1e-05); arrays of length <=3 at every start',
+        'bound': 'templates <=3 lines x <=4 fields, delimiters {space, comma}, every field position, 26 values incl. +-inf, nan, denormal, max float, point-free exponent forms (1e-05, -1e-05); arrays of length <=3 at every start; arrays wrapping over several template rows (row_end > row_start) for every start/end field',
         'evaluations': r['evaluations'], 'distinct_nontrivial': r['distinct_nontrivial'], 'exhaustive': True,
         'failures': r['n_failures'], 'samples': r['samples']}
     for f in r['failures'][:3]:
